@@ -254,7 +254,10 @@ class Phrase:
         )
 
 
-def _parse_key_locator(locator_string: str) -> Pair | Phrase | list[Pair | Phrase]:
+MAX_KEY_LOCATOR_DEPTH = 16
+
+
+def _parse_key_locator(locator_string: str, depth: int = 0) -> Pair | Phrase | list[Pair | Phrase]:
     """Parse a key locator from a string.
 
     Key locators are string formatted data structures with a forward slash (``/``) separator. Each component is
@@ -263,19 +266,23 @@ def _parse_key_locator(locator_string: str) -> Pair | Phrase | list[Pair | Phras
     Interally called ``KeyLocator``.
     """
 
+    if depth > MAX_KEY_LOCATOR_DEPTH:
+        # Every nesting level scans its members again, real key safes only nest a few levels deep
+        raise ValueError("Invalid KeySafe string, key locators nested too deep")
+
     identifier, _, remainder = locator_string.partition("/")
 
     if identifier == "list":
         # Comma separated list in between braces
         # list/(member,member)
-        return [_parse_key_locator(member) for member in _split_list(remainder)]
+        return [_parse_key_locator(member, depth + 1) for member in _split_list(remainder)]
 
     if identifier == "pair":
         # Comma separated tuple with 3 members
         # pair/(key data,mac type,encrypted data)
         members = _split_list(remainder)
         return Pair(
-            _parse_key_locator(members[0]),
+            _parse_key_locator(members[0], depth + 1),
             unquote(members[1]),
             base64.b64decode(unquote(members[2])),
         )
